@@ -194,6 +194,10 @@ class Tr:
                     el = t.value if isinstance(t, ast.Subscript) else t
                     if isinstance(el, ast.Attribute) and isinstance(el.value, ast.Name) and el.value.id == "self":
                         note(el.attr)
+            if isinstance(node, ast.Call) and dotted(node.func) in self.calls and isinstance(self.calls[dotted(node.func)], dict):
+                for u in self.calls[dotted(node.func)].get("updates", []):
+                    if u in self.fields:
+                        note(u)
             if isinstance(node, ast.Call) and isinstance(node.func, ast.Attribute):
                 if node.func.attr in ("append", "pop", "clear"):
                     b = node.func.value
@@ -467,6 +471,16 @@ class Tr:
                         b, c, t = self.E(ast.parse(a, mode="eval").body, env)
                     if "argtypes" in how:
                         want = parse_type(how["argtypes"][j])
+                        if (t != want and isinstance(a, int) and isinstance(node.args[a], ast.Tuple)
+                                and isinstance(want, tuple) and want[0] == "Tuple" and len(want[1]) == len(node.args[a].elts)):
+                            parts = []
+                            for el, wt in zip(node.args[a].elts, want[1]):
+                                be, ce, te = self.E(el, env)
+                                b = b + be if be else b
+                                if te != wt:
+                                    ce, te = self.coerce_to(ce, te, wt)
+                                parts.append(ce)
+                            c, t = "(" + ", ".join(parts) + ")", want
                         if t != want:
                             if isinstance(t, tuple) and t[0] == "Opt" and t[1] == want:
                                 b, c, t = self.unopt(b, c, t)
@@ -784,16 +798,31 @@ class Tr:
             # a translated procedure that updates fields: {"lean":…, "args":[…], "stmt": True, "updates": [fields]}
             how = self.calls[fn]
             bs, cs = [], []
-            for a in how["args"]:
+            for j, a in enumerate(how["args"]):
                 if isinstance(a, int):
-                    b, c, _t = self.E(call.args[a], env)
+                    b, c, t = self.E(call.args[a], env)
                 else:
-                    b, c, _t = self.E(ast.parse(a, mode="eval").body, env)
+                    b, c, t = self.E(ast.parse(a, mode="eval").body, env)
+                if "argtypes" in how:
+                    want = parse_type(how["argtypes"][j])
+                    if (t != want and isinstance(a, int) and isinstance(call.args[a], ast.Tuple)
+                            and isinstance(want, tuple) and want[0] == "Tuple"):
+                        parts = []
+                        for el, wt in zip(call.args[a].elts, want[1]):
+                            be, ce, te = self.E(el, env)
+                            b = b + be if be else b
+                            if te != wt:
+                                ce, te = self.coerce_to(ce, te, wt)
+                            parts.append(ce)
+                        c, t = "(" + ", ".join(parts) + ")", want
+                    elif t != want:
+                        c, t = self.coerce_to(c, t, want)
                 bs += b
-                cs.append(c)
-            ups = ["self_" + u for u in how["updates"]]
-            pat = ups[0] if len(ups) == 1 else "(" + ", ".join(ups) + ")"
-            return bs + [f"let {pat} ← {how['lean']} {' '.join(cs)}"] + self.T(rest, env, k, loop)
+                cs.append(c if c.startswith("(") or " " not in c else f"({c})")
+            ups = ["self_" + u for u in how.get("updates", [])]
+            pat = "_" if not ups else ups[0] if len(ups) == 1 else "(" + ", ".join(ups) + ")"
+            pre = ("h " if how.get("heap") else "")
+            return bs + [f"let {pat} ← {how['lean']} {pre}{' '.join(cs)}"] + self.T(rest, env, k, loop)
         raise Untranslatable(f"call statement {ast.unparse(call)[:60]}")
 
     def live_vars(self, stmts_nodes, env):
